@@ -14,10 +14,8 @@ ALLOWED_CARRY = {
 }
 # carried fields that cannot change the bytes of an accepted program (a rejection or nothing follows): observations
 OBSERVE_CARRY = {
-    ('AsmContext', 'segment'): 'a program ending in .bss is rejected in pass 2 only (rejection, no wrong bytes)',
     ('Symbols', 'in_scope'): 'scope flag; scope ids are reset by symbols.scope_reset() in main',
     ('Symbols', 'current_scope'): 'reset by symbols.scope_reset() between the passes (T-SIB(a))',
-    ('AsmContext', 'parse_directive'): 'set by CPU selection (set_cpu / .cpu-specific directive hook), replayed by the CPU directive in pass 2',
 }
 # set_cpu() copies: carried, but every program that changes them does so through a CPU directive that pass 2 replays;
 # they matter only for statements placed before the first CPU directive
@@ -60,8 +58,6 @@ def rpass(prog, cg):
                 R[key][0][0].file, R[key][0][1]['l']), False))
         elif key in ALLOWED_CARRY:
             obs.append(Ob('R-PASS', fn.file, n['l'], fn.q, name, DISCHARGED, '', 'allowed carry: ' + ALLOWED_CARRY[key], False))
-        elif key in setcpu:
-            obs.append(Ob('R-PASS', fn.file, n['l'], fn.q, name, OBSERVATION, SET_CPU_COPIES))
         elif key in OBSERVE_CARRY:
             obs.append(Ob('R-PASS', fn.file, n['l'], fn.q, name, OBSERVATION, OBSERVE_CARRY[key]))
         else:
